@@ -725,7 +725,7 @@ func TestC20(t *testing.T) {
 	// every single fault
 	var ps []path
 	paths(base(), nil, &ps)
-	var singles []Fault
+	var singles, textual []Fault
 	for _, p := range ps {
 		for _, k := range []string{"delete", "empty", "null", "mistype_key", "wrong_type"} {
 			if _, isIdx := p[len(p)-1].(int); isIdx && (k == "delete" || k == "mistype_key") {
@@ -749,7 +749,7 @@ func TestC20(t *testing.T) {
 			}
 			if cur, isStr := leaf.(string); isStr {
 				for _, x := range []string{"$x", "${x}", "$HOME", "${PATH}", "$$", " #x", "{{.x}}", "%s", "\\n", ": x"} {
-					singles = append(singles, Fault{Path: p.String(), Kind: "set", Value: cur + x, p: p}, Fault{Path: p.String(), Kind: "set", Value: x, p: p})
+					textual = append(textual, Fault{Path: p.String(), Kind: "set", Value: cur + x, p: p}, Fault{Path: p.String(), Kind: "set", Value: x, p: p})
 				}
 			}
 		}
@@ -771,12 +771,31 @@ func TestC20(t *testing.T) {
 			singles = append(singles, Fault{Path: lp, Kind: "set", Value: l, p: parsePath(lp)})
 		}
 	}
+	structural := len(singles)
+	singles = append(singles, textual...)
 	for _, f := range singles {
 		c := Case{Faults: []Fault{f}}
 		v := run(&c)
 		account(&c, false, "single_fault")
 		vcore.Report(t, v, c)
 	}
+	// every pair of structural faults within one section of the document (fields of one section are the ones whose validity
+	// is most likely to be made to depend on each other)
+	pairs := 0
+	for i := 0; i < structural; i++ {
+		for j := i + 1; j < structural; j++ {
+			a, b := singles[i], singles[j]
+			if a.Path == b.Path || len(a.p) < 2 || len(b.p) < 2 || a.p[0] != b.p[0] {
+				continue
+			}
+			c := Case{Faults: []Fault{a, b}}
+			v := run(&c)
+			account(&c, true, "pair_in_section")
+			vcore.Report(t, v, c)
+			pairs++
+		}
+	}
+	vcore.E.SetExtra("pairs_in_section", fmt.Sprintf("%d pairs of structural faults at two different fields of one section", pairs))
 	vcore.E.SetExtra("single_faults", fmt.Sprintf("%d single faults enumerated over %d document nodes", len(singles), len(ps)))
 
 	// coupled faults: the same value at two (or three) places that hold one and the same host in a valid document - every host
@@ -808,7 +827,12 @@ func TestC20(t *testing.T) {
 			c.Variant = rapid.SampledFrom(variants).Draw(rt, "v")
 		}
 		for i := 0; i < n; i++ {
-			c.Faults = append(c.Faults, singles[rapid.IntRange(0, len(singles)-1).Draw(rt, "fault")])
+			// mostly structural faults (the textual variants of every string are many and would thin them out)
+			hi := structural - 1
+			if rapid.IntRange(0, 4).Draw(rt, "textual") == 0 {
+				hi = len(singles) - 1
+			}
+			c.Faults = append(c.Faults, singles[rapid.IntRange(0, hi).Draw(rt, "fault")])
 		}
 		v := run(&c)
 		account(&c, true, "multi_fault")
